@@ -472,6 +472,56 @@ def unexercised_blocks(pid, cases, log, all_blocks=False, files=None):
         shutil.rmtree(d, ignore_errors=True)
 
 
+REST_DIR = 'internal/app/api'
+
+
+def unexercised_rest_blocks(cases, log, all_blocks=False):
+    """the same for the REST layer: the server is built with block counters, answers the REST cases and is stopped
+    gracefully; returns (list of (location, key), number of blocks) or (None, 0)"""
+    import shutil, tempfile
+    rest = [c for c in cases if c.split(' ')[0] in REST_OPS]
+    if not rest:
+        return None, 0
+    out = os.path.join(WORK, 'restbin_cover')
+    env = dict(os.environ, GOPROXY='off')
+    env.pop('GOFLAGS', None); env.pop('GOWORK', None)
+    rc, o = sh(['go', 'build', '-cover', '-covermode=count', '-coverpkg=github.com/ja7ad/otp/...', '-o', out, './cmd'], cwd=os.path.join(REPO, 'internal', 'app'), env=env, timeout=900)
+    if rc:
+        log.write('--- REST cover build failed\n' + o[-1500:])
+        return None, 0
+    d = tempfile.mkdtemp(prefix='covrest', dir=WORK)
+    try:
+        sh([os.path.join(BIN, 'harness'), 'exec'], inp='\n'.join(rest) + '\n', timeout=3600, env=dict(os.environ, GOCOVERDIR=d, VERIF_REST_BIN=out, VERIF_REST_TERM='1'))
+        txt = os.path.join(d, 'p.txt')
+        sh(['go', 'tool', 'covdata', 'textfmt', '-i=' + d, '-o=' + txt], env=GOENV, timeout=300)
+        blocks = {}
+        if os.path.exists(txt):
+            for line in open(txt):
+                m = re.match(r'github\.com/ja7ad/otp/(internal/app/api/[^:]+):(\d+)\.\d+,(\d+)\.\d+ \d+ (\d+)', line)
+                if m:
+                    loc = (m.group(1), int(m.group(2)), int(m.group(3)))
+                    blocks[loc] = blocks.get(loc, 0) + int(m.group(4))
+        ranges = []
+        try:
+            ranges = [tuple(x) for x in json.load(open(os.path.join(WORK, 'gen_model_rest.json'))).get('funcs', [])]
+        except Exception:
+            pass
+        def entered(f, sl):
+            b0 = os.path.basename(f)
+            inside = [(a, b) for (ff, a, b) in ranges if ff == b0 and a <= sl <= b]
+            if not inside:
+                return True
+            a, b = min(inside, key=lambda r: r[1] - r[0])
+            return any(n > 0 for (ff, s2, e2), n in blocks.items() if ff == f and a <= s2 <= b)
+        missed = []
+        for (f, sl, el), n in sorted(blocks.items()):
+            if all_blocks or (n == 0 and entered(f, sl)):
+                missed.append(('%s:%d' % (f, sl), block_key(REPO, f, sl, el)))
+        return missed, len(blocks)
+    finally:
+        shutil.rmtree(d, ignore_errors=True)
+
+
 def coverage_baseline(pid):
     """texts of all blocks of the library on the unchanged tree (coverage_baseline/all_blocks.txt): an unexecuted block
     is reported only when its text is not among them, i.e. when it is code the unchanged tree does not have"""
@@ -849,6 +899,31 @@ def run_check(pid, tier, seed, replay, log, t0):
                     allc += out2.split('\n')[:-1]
         src_tie['coverage_pass_cases'] = len(allc)
         missed, nblocks = unexercised_blocks(pid, allc, log)
+        if pid in ('C18', 'C19'):
+            rmissed, rn = unexercised_rest_blocks(allc, log)
+            if rmissed is not None:
+                # the handlers are full of error branches that cannot be taken on any request (json.Marshal of a plain
+                # struct failing, ...), on the unchanged tree as well; a rewrite rewords them.  A block of the form
+                # `if err != nil { <report>; return }` is excused: it runs only if a call reports an error, and what
+                # that call does on every request is what the correspondence compares.
+                def error_branch(k):
+                    t = k.split(': ', 1)[-1]
+                    if re.match(r'if (\w+ := .*; )?\w*[eE]rr\w* != nil \{', t) is not None and re.search(r'return\b[^{}]*\}?\s*$', t) is not None:
+                        return True
+                    # or a block that handles an error value in some other arrangement (`if err == nil {...; return}` followed
+                    # by the failure path): it mentions the error variable
+                    return re.search(r'\b(err|\w+Err)\b', t) is not None
+                def under_error_test(loc):
+                    # the block is the body of `if err != nil {` on the line before it (or on its own first line)
+                    try:
+                        f, ln = loc.rsplit(':', 1)
+                        lines = open(os.path.join(REPO, f)).read().split('\n')
+                        near = ' '.join(lines[max(0, int(ln) - 2):int(ln)])
+                        return re.search(r'\b\w*[eE]rr\w* != nil \{', near) is not None
+                    except Exception:
+                        return False
+                rmissed = [(loc, k) for (loc, k) in rmissed if k and not error_branch(k) and not under_error_test(loc)]
+                missed, nblocks = (missed or []) + rmissed, nblocks + rn
         if missed is not None and base is not None:
             # a block is the unchanged tree's when its text is, or when its body is (the same statements under a
             # reworded condition: `if _, err := f(); err != nil {...}` against `_, err := f()` / `if err != nil {...}`)
